@@ -34,7 +34,8 @@ def run(chk, replay=None):
         chk.streams.append({'stream': 'first pass fed back', 'cfg': cfg.describe(), 'cases': len(lines)})
     # through the CLI, multi-line
     with tempfile.TemporaryDirectory() as d:
-        f = os.path.join(d, 'in.log'); open(f, 'wb').write(b'\n'.join(lines[:200]) + b'\n')
+        cli_lines = lines[:200] + [l for (l, info) in cases if info['kind'] == 'anyjson'][:250]
+        f = os.path.join(d, 'in.log'); open(f, 'wb').write(b'\n'.join(cli_lines) + b'\n')
         o1, o2 = os.path.join(d, 'o1'), os.path.join(d, 'o2')
         subprocess.run([CLI, 'redact', f, '-o', o1, '-n', '-b', '-i'], stdin=subprocess.DEVNULL, capture_output=True)
         subprocess.run([CLI, 'redact', o1, '-o', o2, '-n', '-b', '-i'], stdin=subprocess.DEVNULL, capture_output=True)
